@@ -20,11 +20,15 @@ def one(job):
 
     mod = importlib.import_module("harness." + pid.lower())
     spec = parse_short(gshort)
-    chars = sorted({c for _, v in spec.terms.values() for c in v})
+    chars = mod.sweep_alphabet(spec) if hasattr(mod, "sweep_alphabet") else sorted({c for _, v in spec.terms.values() for c in v})
     bad = {}
-    for tb in ("LALR", "SLR"):
+    if hasattr(mod, "sweep_params"):
+        plist = mod.sweep_params(gshort, gname, nmax)
+    else:
+        plist = [{"grammar": gshort, "gname": gname, "tables": tb, "N": nmax, "K": 200, "no_skip": True} for tb in ("LALR", "SLR")]
+    for prm in plist:
         try:
-            h = mod.build({"grammar": gshort, "gname": gname, "tables": tb, "N": nmax, "K": 200, "no_skip": True}, symbolic=False)
+            h = mod.build(prm, symbolic=False)
         except Skip as e:
             return gshort, gname, {"__skip__": str(e)}
         for n in range(nmax + 1):
